@@ -148,7 +148,7 @@ class Run:
 
 def run_scenario(scenario, chooser=None, config_kwargs=None, max_steps=100000,
                  checksum='when_required', fs_fault=None, sample_fs=None, cancel_at=None,
-                 cancel_how='future', keep_tmp=False):
+                 cancel_how='future', keep_tmp=False, collect=None):
     """scenario(env) runs in the managed 'user' thread; env has .manager, .client,
     .tmpdir, .I, .sub(...), .future_result(label, future)."""
     from s3transfer.manager import TransferManager, TransferConfig
@@ -232,6 +232,8 @@ def run_scenario(scenario, chooser=None, config_kwargs=None, max_steps=100000,
         run.manager = manager
         run.I = I
         run.final_files = sorted(os.listdir(tmpdir))
+        if collect:
+            collect(run, env)
     finally:
         I.uninstall()
         if not keep_tmp:
